@@ -25,7 +25,7 @@ def gen_sentence(rng: random.Random, max_elems=5, max_count=14, canonical_order=
     counts = {}
     for s in syms:
         r = rng.random()
-        counts[s] = 1 if r < 0.35 else rng.randint(2, 9) if r < 0.8 else rng.randint(10, max_count)
+        counts[s] = 1 if r < 0.35 else rng.randint(2, min(9, max(2, max_count))) if (r < 0.8 or max_count < 10) else rng.randint(10, max_count)
     n = sum(counts.values())
     bonds = []
     if n >= 2:
